@@ -33,24 +33,28 @@ PROPS = {
     'C03': {
         'extra': [('pyvc-own(copy-before-write)', extras.cow_check), ('SET ordering', extras.set_order_check),
                   ('memo-key', extras.memo_key_check), ('contract coverage', extras.contract_coverage_check)],
-        'assumptions': [GRAPH, 'SET member ordering, SET OF sorting, named-bit trailing-zero removal and DEFAULT omission in '
-                        'MembersType are not under contract yet (see DESIGN.md, known defects 3, 4, 19, 21)',
-                        'time types and REAL contents are not under contract'],
+        'assumptions': [GRAPH, 'SET ordering, SET OF sorting and named-bit cleaning are data-flow obligations over the AST (sorted() and '
+                        'bytes.rstrip are assumed builtins), not SMT proofs; the sort key is wrong for tag numbers >= 16384 '
+                        '(known, DESIGN.md I.3)',
+                        'time types and REAL contents beyond the integer part are not under contract'],
         'trusted_base': [FOREIGN],
         'explanation': 'DER primitives against X.690: minimal definite length, identifier octets, minimal two\'s complement, BOOLEAN '
                        '0xFF, BIT STRING unused bits, TLV wrapper; compile-time copy-before-write so a DEFAULT/SIZE/tag of one use site '
                        'cannot leak into another',
     },
     'C06': {
-        'assumptions': [GRAPH, 'MembersType/Choice/Enumerated/Real/time types of the OER codec are not under contract yet'],
-        'trusted_base': [FOREIGN, 'struct.pack/unpack are not modelled (fixed-width INTEGER encode/decode bodies are out of the kernel)'],
+        'assumptions': [GRAPH, 'Real, ObjectIdentifier, time types, decode_root (dict comprehension with reads) of the OER codec are not '
+                        'under contract; the encoders collected for extension additions are assumed to hold whole octets '
+                        '(listed assumes clause)'],
+        'trusted_base': [FOREIGN, 'struct.pack/unpack: assumed builtin contract for the eight single-field big-endian formats'],
         'explanation': 'OER bit stream algebra (Encoder/Decoder primitives), INTEGER width selection against X.696 10, BOOLEAN, '
                        'fixed-size BIT STRING / OCTET STRING consumption',
     },
     'C05': {
         'assumptions': [GRAPH, 'exactness contracts of the PER Encoder cover accumulators of up to 4096 bits (before the first flush to '
                         'chunks); the flush path is covered by bit-count contracts only',
-                        'PER type classes (Integer, Enumerated, strings, SEQUENCE preamble, CHOICE) are not under contract yet'],
+                        'fragmented forms (>= 16K items; generator functions), MembersType.encode / decode_root (chunk offsets, '
+                        'comprehension with reads), Real, ObjectIdentifier and time types of PER/UPER are not under contract'],
         'trusted_base': [FOREIGN],
         'explanation': 'PER/UPER Encoder and Decoder primitives against X.691 11: alignment over all bits written, length determinant '
                        'forms, normally small numbers/lengths, constrained whole numbers (aligned variant), checked reads',
@@ -64,7 +68,8 @@ PROPS = {
     },
     'C08': {
         'extra': [('pyvc-own(decode paths)', extras.frame_check_decode)],
-        'assumptions': [GRAPH, 'ber.MembersType.decode_members, PER/OER containers, JER/XER (json / ElementTree) are not under contract',
+        'assumptions': [GRAPH, 'PER/OER decode_root (comprehension with reads), generator-based fragment loops, JER/XER (json / ElementTree) '
+                        'are not under contract',
                         'cost is bounded only through the decreases measures (iterations <= octets consumed)'],
         'trusted_base': [FOREIGN],
         'explanation': 'a decreases measure for every while loop of the BER/DER/OER decode kernels, progress contracts '
@@ -72,15 +77,16 @@ PROPS = {
                        'remaining data before use; decode paths write no shared state (frame check)',
     },
     'C04': {
-        'assumptions': [GRAPH, 'SET members in any order (MembersType.decode_members) and the concatenation of constructed string '
-                        'segments are not under contract'],
+        'assumptions': [GRAPH, 'acceptance of SET members in *any* order beyond one round of decode_members (permutation argument) is '
+                        'argued, not mechanised; text decoding (bytes.decode) is an assumed builtin'],
         'trusted_base': [FOREIGN],
         'explanation': 'BER decoder accepts every X.690 length form (short, long with leading zeros, indefinite with end-of-contents), '
                        'primitive and constructed tag forms of strings, nested constructed segments (progress + termination)',
     },
     'C07': {
         'extra': [('presence guard', extras.presence_guard_check)],
-        'assumptions': [GRAPH, 'PER/OER addition decoding (decode_additions) and JER/XER are not under contract'],
+        'assumptions': [GRAPH, 'OER decode_additions ignores the announced length of an addition this version knows (consumption is then '
+                        'the addition decoder\'s own); JER/XER are outside (C02)'],
         'trusted_base': [FOREIGN],
         'explanation': 'skip/re-synchronisation: an unknown CHOICE alternative is skipped by exactly its TLV, unknown ENUMERATED values '
                        'of extensible types decode to None, skip_bits is a checked skip',
@@ -88,15 +94,15 @@ PROPS = {
     'C11': {
         'extra': [('pyvc-own(copy-before-write)', extras.cow_check)],
         'assumptions': [GRAPH, 'bound resolution through value references (Compiler.get_size_range / get_restricted_to_range) and '
-                        'Dict (SEQUENCE/SET) traversal are not under contract yet'],
+                        'the compiler-side construction of the checker objects are not under contract'],
         'trusted_base': [FOREIGN],
         'explanation': 'iff-contracts of the constraints checker: range bookkeeping (extensible => not enforced), INTEGER / BIT STRING / '
                        'OCTET STRING / character string size and alphabet, SEQUENCE OF (every element visited), CHOICE',
     },
     'C12': {
         'assumptions': [GRAPH, 'induction over the value structure (each container adds its component when the child error passes '
-                        'through) is argued, not mechanised; SEQUENCE/SET member traversal (Dict.encode_members, '
-                        'MembersType.encode_member) and the PER/OER/JER/GSER wrappers are not under contract yet'],
+                        'through) is argued, not mechanised; JER is outside (C02); add_location is under contract on the '
+                        'identity model of path elements'],
         'trusted_base': [FOREIGN],
         'explanation': 'type checker accepts exactly the Python types of the README table (raises-iff per kind); the location of an '
                        'error raised inside a CHOICE alternative / recursive type / top-level type ends with that component, so the '
@@ -133,9 +139,10 @@ PROPS = {
         'extra': [('pyvc-own(copy-before-write)', extras.cow_check), ('module threading', extras.module_threading_check),
                   ('memo-key', extras.memo_key_check), ('pre_process idempotence', extras.preprocess_idempotence_check)],
         'needs_contracts': False,
-        'assumptions': ['DEFAULT conversion through type references (parser.convert_value), the transitive copy through '
-                        'ExplicitTag.inner, permutation of assignments/modules/files and the duplicate-name rule of '
-                        'Specification.__init__ are NOT covered (known defects 14 and 15 of DESIGN.md remain open)'],
+        'assumptions': ['permutation of assignments/modules/files and the duplicate-name rule of Specification.__init__ are NOT '
+                        'covered; DEFAULT conversion through references is covered for BOOLEAN / BIT STRING / OCTET STRING only '
+                        '(an OBJECT IDENTIFIER default through a reference is parsed to None: known, DESIGN.md I.3); all obligations '
+                        'here are data-flow obligations over the AST, not SMT proofs'],
         'trusted_base': ['pyvc-own (pyvc/own.py) and the data-flow analysis in pyvc/extras.py'],
         'explanation': 'reduced: (3) copy-before-write -- a member-specific OPTIONAL/DEFAULT/SIZE/tag is only ever written into a '
                        'copy, never into the object stored in the compiled-type cache; (4) every part of a looked-up descriptor is '
@@ -147,9 +154,10 @@ PROPS = {
                   ('pre_process coverage', extras.preprocess_coverage_check), ('memo-key', extras.memo_key_check),
                   ('pre_process idempotence', extras.preprocess_idempotence_check)],
         'needs_contracts': False,
-        'assumptions': ['idempotence / option-independence of the in-place pre-processing passes (automatic tagging, implied '
-                        'extension marker, COMPONENTS OF, default conversion) is NOT under contract; known defect 12 (ENUMERATED '
-                        'default rewritten in place under numeric_enums) remains open'],
+        'assumptions': ['idempotence is decided only through the guarded-rewrite obligation (a pass that recomputes a field from '
+                        'its own old value tests the old value) and the marker-consuming structure of the delegated passes; '
+                        'option-independence is NOT covered: known defect 12 (ENUMERATED default rewritten in place under '
+                        'numeric_enums, then compiled again without it) remains open'],
         'trusted_base': ['data-flow analysis in pyvc/extras.py'],
         'explanation': 'reduced: module threading of COMPONENTS OF / type resolution (a dictionary whose module order changes, e.g. '
                        'after pformat/eval, is expanded the same way) and copy-before-write of compiled members',
